@@ -2,11 +2,27 @@ use sudachi_verif::driver::{run_property, Args};
 use sudachi_verif::engine::Tier;
 use sudachi_verif::props;
 
+fn write_fixture<C: serde::Serialize>(prop: &str, name: &str, case: &C, note: &str) {
+    let path = sudachi_verif::engine::verif_root().join("corpus").join(prop).join(name);
+    sudachi_verif::engine::write_json(&path, &serde_json::json!({"property": prop, "note": note, "case": case}));
+    println!("wrote {}", path.display());
+}
+
+fn fixtures() {
+    for (name, case, note) in props::c03::fixtures() {
+        write_fixture("C03", name, &case, note);
+    }
+}
+
 fn main() {
     let argv: Vec<String> = std::env::args().collect();
-    if argv.len() < 3 {
+    if argv.len() < 3 && !(argv.len() == 2 && argv[1] == "fixtures") {
         eprintln!("usage: vcheck <Cxx> <quick|thorough> [--replay FILE]");
         std::process::exit(2);
+    }
+    if argv[1] == "fixtures" {
+        fixtures();
+        return;
     }
     let id = argv[1].as_str();
     let tier = match argv[2].as_str() {
@@ -30,6 +46,7 @@ fn main() {
     let args = Args { tier, seed, replay };
     let code = match id {
         "C01" => run_property(&props::c01::C01, &args),
+        "C03" => run_property(&props::c03::C03, &args),
         x => {
             eprintln!("unknown property {}", x);
             2
